@@ -150,6 +150,7 @@ def check_c12(out, tier):
         for (i, j) in rnd.sample(pairs, 3 if tier == "quick" else 8):
             items.append({"id": "%s.%d.%d" % (c["id"], i, j), "rel": "thr", "a": with_cfg(c, thr=grid[i]), "b": with_cfg(c, thr=grid[j])})
     campaign(out, "C12", items, mine)
+    pinned_campaigns(out, "C12", mine)
     # the two end points are absolute statements: threshold 0 omits nothing observed, threshold 1 keeps only universal features
     ends = []
     for c in base_cases(rnd, 60 * k, "c12e"):
